@@ -4,3 +4,7 @@ import ParryModel.C16.Theorems
 #print axioms C16.ear_clipping_sound
 #print axioms C16.ear_clipping_rejects_cw
 #print axioms C16.hertel_mehlhorn_sound
+#print axioms C16.ear_clipping_count
+#print axioms C16.inTri_false_iff
+#print axioms C16.outsideTri_iff
+#print axioms C16.ear_clipping_ears_empty
